@@ -25,6 +25,11 @@ CHECKS = {
         technique="property-based testing (Hypothesis): generated schema x 2-3 populations with overlapping ids, model comparison of the appended session under a per-file id offset via an independent Part 21 parser",
         text="ReadExchangeFile + AppendExchangeFile(s) on generated populations whose ids collide by construction; the written session is parsed independently and every instance and every reference of an appended file must equal the model shifted by one common offset larger than all earlier ids.",
         note="Only the existence of one common offset > max earlier id is asserted, not its value. Header merging is not part of the statement and not compared."),
+    "C15": dict(
+        level="fault_enumeration", ref="DESIGN.md section 4 C15",
+        technique="property-based testing (Hypothesis) with exhaustive enumeration of every attribute occurrence x {$, empty} x {strict, lenient} per generated population; decision-table oracle from the statement",
+        text="For each generated conforming population every non-derived attribute occurrence (every kind, optional/required, own/inherited, inside complex parts) is nulled in turn and read in both modes by the driver and by p21read; severity, exit status, the written filler and the integrity of all other instances are compared with the statement's table.",
+        note="Enumeration is exhaustive per population (quick tier caps repeats of the same class per population, counted). The outcome of an *empty* required value in lenient mode is not fixed by the statement and is executed but not asserted. Defined types over INTEGER/REAL/NUMBER/STRING are classified by their base kind."),
     "C19": dict(
         level="exploration", ref="DESIGN.md section 4 C19",
         technique="stateful property-based testing (Hypothesis RuleBasedStateMachine) + exhaustive enumeration of short operation sequences against a list/multiset/set model",
